@@ -184,13 +184,8 @@ def Builder.ensureIncreasingKey (b : Builder B) (key : Nat) : Bool :=
 def Builder.write (b : Builder B) (data : Bytes) : Builder B :=
   { b with chunksRev := data :: b.chunksRev, size := b.size + data.length }
 
-/-- `storeBuilder.afterWrite`; `none` = the panic of `FixedOffsetEncoder.Add`
-("value added to FixedOffsetEncoder must be increasing"), raised before anything is changed. -/
-def Builder.afterWrite (K : KeySetOps B) (b : Builder B) (key offset : Nat) : Option (Builder B) :=
-  match b.offsRev with
-  | last :: _ => if last > offset then none else some (go b)
-  | [] => some (go b)
-where go (b : Builder B) : Builder B :=
+/-- the assignments of `storeBuilder.afterWrite` (after `offset.Add` did not panic) -/
+def Builder.register (K : KeySetOps B) (b : Builder B) (key offset : Nat) : Builder B :=
   { b with
     offsRev := offset :: b.offsRev
     offMax := if b.offMax < offset then offset else b.offMax
@@ -198,6 +193,13 @@ where go (b : Builder B) : Builder B :=
     minKey := if b.first then key else b.minKey
     maxKey := key
     first := false }
+
+/-- `storeBuilder.afterWrite`; `none` = the panic of `FixedOffsetEncoder.Add`
+("value added to FixedOffsetEncoder must be increasing"), raised before anything is changed. -/
+def Builder.afterWrite (K : KeySetOps B) (b : Builder B) (key offset : Nat) : Option (Builder B) :=
+  match b.offsRev with
+  | last :: _ => if last > offset then none else some (b.register K key offset)
+  | [] => some (b.register K key offset)
 
 /-- `storeBuilder.Add` (always returns nil apart from I/O errors, which are not modelled) -/
 def Builder.add (K : KeySetOps B) (b : Builder B) (key : Nat) (value : Bytes) : Option (Builder B) :=
